@@ -344,30 +344,30 @@ class ExprIfThenElseExpander(IdentityMapper):
         then_stmt_id = self.stmt_id_gen("ifthenelse_then")
         else_stmt_id = self.stmt_id_gen("ifthenelse_else")
 
+        from dagrt.language import Assign
+
+        # Statements are appended in the order in which they must run: what
+        # the branches need (guarded by the flag) comes after the flag.
+
         sub_condition_deps = []
         rec_condition = self.rec(expr.condition, base_condition, base_deps,
                                  sub_condition_deps)
 
-        sub_then_deps = []
-        then_condition = flat_LogicalAnd(base_condition, flag)
-        rec_then = self.rec(expr.then, then_condition,
-                            base_deps | frozenset([if_stmt_id]), sub_then_deps)
-
-        sub_else_deps = []
-        else_condition = flat_LogicalAnd(base_condition, LogicalNot(flag))
-        rec_else = self.rec(expr.else_, else_condition,
-                            base_deps | frozenset([if_stmt_id]), sub_else_deps)
-
-        from dagrt.language import Assign
-
-        self.new_statements.extend([
+        self.new_statements.append(
             Assign(
                 assignee=flag.name,
                 assignee_subscript=(),
                 expression=rec_condition,
                 condition=base_condition,
                 id=if_stmt_id,
-                depends_on=base_deps | frozenset(sub_condition_deps)),
+                depends_on=base_deps | frozenset(sub_condition_deps)))
+
+        sub_then_deps = []
+        then_condition = flat_LogicalAnd(base_condition, flag)
+        rec_then = self.rec(expr.then, then_condition,
+                            base_deps | frozenset([if_stmt_id]), sub_then_deps)
+
+        self.new_statements.append(
             Assign(
                 assignee=tmp_result,
                 assignee_subscript=(),
@@ -377,7 +377,14 @@ class ExprIfThenElseExpander(IdentityMapper):
                 depends_on=(
                     base_deps
                     | frozenset(sub_then_deps)
-                    | frozenset([if_stmt_id]))),
+                    | frozenset([if_stmt_id]))))
+
+        sub_else_deps = []
+        else_condition = flat_LogicalAnd(base_condition, LogicalNot(flag))
+        rec_else = self.rec(expr.else_, else_condition,
+                            base_deps | frozenset([if_stmt_id]), sub_else_deps)
+
+        self.new_statements.append(
             Assign(
                 assignee=tmp_result,
                 assignee_subscript=(),
@@ -387,8 +394,7 @@ class ExprIfThenElseExpander(IdentityMapper):
                 depends_on=(
                     base_deps
                     | frozenset(sub_else_deps)
-                    | frozenset([if_stmt_id])))
-                ])
+                    | frozenset([if_stmt_id]))))
 
         extra_deps.extend([then_stmt_id, else_stmt_id])
         return var(tmp_result)
